@@ -1,5 +1,5 @@
 """C19 — I/O failures are reported as failures, never as success."""
-import os, resource, shutil, signal, subprocess, tempfile
+import os, re, resource, shutil, signal, subprocess, tempfile
 from .. import core, progdiff
 from ..gen import Lib, ProgGen
 
@@ -20,15 +20,15 @@ def limited(k):
     return f
 
 
-def fault_run(c, src, k, full_len, tag):
-    res = core.run_cli(src, preexec=limited(k), extra_args=['-k'])
+def fault_run(c, src, k, full_len, tag, flags=()):
+    res = core.run_cli(src, preexec=limited(k), extra_args=['-k'] + list(flags))
     o = core.classify_cli(res)
     m = core.parse_model_prog(c.model.ask(core.model_prog_req(src, k)))
-    rep = dict(src=src.decode()[:2000], k=k, full=full_len)
+    rep = dict(src=src.decode()[:2000], k=k, full=full_len, flags=list(flags))
     if o[0] == 'panic':
         c.violation('io:panic', 'write failure at byte %d of %d panics: %s' % (k, full_len, o[1]), rep)
     elif k < full_len:
-        if o[0] == 'success' or ' ok' in res['stdout'].split('->')[-1]:
+        if o[0] == 'success' or ' ok' in re.sub(r'\x1b\[[0-9;]*m', '', res['stdout']).split('->')[-1]:
             c.violation('io:claimed-success', 'write failure at byte %d of %d reported as success' % (k, full_len), rep)
         elif res['rc'] == 0:
             c.violation('io:exit-status', 'exit status 0 after a write failure', rep)
@@ -64,6 +64,12 @@ def campaign(c):
     for src, n in progs:
         for k in range(0, n + 2):
             fault_run(c, src, k, n, 'every-offset')
+    # the same enumeration under the other output-related command line options (-v prints every packet and goes through a
+    # differently configured writer; --color only touches the diagnostics)
+    for src, n in progs[:2 if c.quick else 12]:
+        for flags in (['-v'], ['--color', 'always'], ['-v', '--color', 'never']):
+            for k in range(0, n + 2):
+                fault_run(c, src, k, n, 'every-offset:' + ' '.join(flags), flags)
     # several buffers: boundaries +-1 and a stride
     for nrec, size in ([(6, 4000), (1, 9000), (2, 8192)] if c.quick else [(6, 4000), (1, 9000), (2, 8192), (40, 1400), (3, 30000), (200, 100), (1, 65000)]):
         src = big_program(nrec, size)
@@ -150,4 +156,4 @@ def campaign(c):
 
 def replay(c, data):
     d = data.get('replay') or data['disagreements'][0]['request']
-    fault_run(c, d['src'].encode(), d['k'], d['full'], 'replay')
+    fault_run(c, d['src'].encode(), d['k'], d['full'], 'replay', d.get('flags', ()))
